@@ -2,7 +2,9 @@
    Statements only; every proof is [exact <lemma>] from AnnealLoopProofs / AnnealLoopFloat.
    Model: AnnealLoop.v ([anneal N script T0 a] = SimpleAnnealer.Anneal() of a fresh annealer with budget N, an explorer
    whose iteration j behaves as [script j], starting temperature T0 and cooling factor a, in primitive binary64).
-   A "fault" is a panic raised by the explorer; [payload] is what was given to panic(...). *)
+   A "fault" is a panic raised by the explorer (Initialise, TryRandomChange, CoolDown, TearDown) or by an observer while
+   it is handed an event; [payload] is what was given to panic(...).  [cut r = Some j]: observer j panicked on the last
+   observer event of the trace, which therefore reached observers 0..j only. *)
 From Coq Require Import List Arith Bool Floats Reals.
 From Crem Require Import AnnealLoop AnnealLoopProofs AnnealLoopFloat.
 Import ListNotations.
@@ -22,7 +24,7 @@ Theorem C07_run_without_fault : forall N script T0 a,
   anneal N script T0 a =
     mkRun ([(ExplorerInit, T0); (EvStart, T0)] ++ flat_map (iteration_block a T0) (seq 1 N)
              ++ [(EvFinish N, temp_after a T0 N); (ExplorerTearDown, temp_after a T0 N)])
-          N (temp_after a T0 N) Finished.
+          None N (temp_after a T0 N) Finished.
 Proof. exact anneal_ok_run. Qed.
 
 (* exactly N iterations: N TryRandomChange calls, N CoolDown calls (= N multiplications), counter = N,
@@ -51,18 +53,20 @@ Theorem C07_observers_see_only_events : forall (m i : nat) (tr : list stamped),
 Proof. exact (@nobody_sees_calls float). Qed.
 
 (* the explorer is initialised before the start event: both annealer structs, any script, even a re-used instance *)
-Theorem C07_initialised_before_start : forall kind c0 N script T0 a,
-  exists rest, trace (anneal_gen kind InitOk c0 N script T0 a) = (ExplorerInit, T0) :: (EvStart, T0) :: rest.
+Theorem C07_initialised_before_start : forall kind fl c0 N script T0 a, f_init fl = InitOk ->
+  exists rest, trace (anneal_gen kind fl c0 N script T0 a) = (ExplorerInit, T0) :: (EvStart, T0) :: rest.
 Proof. exact init_precedes_start. Qed.
 
-(* ---- a fault in iteration k (ANY 1 <= k <= N, any of the three places, any payload) --------------------- *)
-(* events up to StartedIteration k (and the calls made so far), then TearDown, then the recovery handler *)
+(* ---- a fault in iteration k: ANY 1 <= k <= N; raised by TryRandomChange, by CoolDown before / after the multiplication,
+        or by observer j on StartedIteration k / FinishedIteration k; ANY payload (error, other, nil) ---------------------- *)
+(* events up to StartedIteration k (resp. FinishedIteration k) and the calls made so far, then TearDown, then the recovery
+   handler, which is told that the run did not complete *)
 Theorem C07_run_with_fault : forall N script T0 a k o p,
   1 <= k <= N ->
   (forall j, 1 <= j < k -> script j = StepOk) ->
   script k = o -> payload_of o = Some p ->
   anneal N script T0 a =
-    recover_handler
+    recover_handler false (observer_of o)
       ([(ExplorerInit, T0); (EvStart, T0)]
          ++ (flat_map (iteration_block a T0) (seq 1 (pred k)) ++ partial_block a T0 k o)
          ++ [(ExplorerTearDown, temp_after a T0 (cooled_after k o))])
@@ -72,59 +76,120 @@ Proof. exact anneal_fault_run. Qed.
 Theorem C07_fault_skeleton : forall N script T0 a k o p,
   1 <= k <= N -> (forall j, 1 <= j < k -> script j = StepOk) ->
   script k = o -> payload_of o = Some p ->
-  skeleton_events (anneal N script T0 a) = skeleton_until_panic k.
+  skeleton_events (anneal N script T0 a) = skeleton_until_fault k o.
 Proof. exact skeleton_fault. Qed.
 
-(* teardown ran (once), no finish event, k TryRandomChange calls, counter = k, temperature multiplied k-1 or k times *)
+(* teardown ran (once), no finish event, counter = k, temperature multiplied k-1 or k times, and who cut the last event *)
 Theorem C07_fault_teardown_no_finish : forall N script T0 a k o p,
   1 <= k <= N -> (forall j, 1 <= j < k -> script j = StepOk) ->
   script k = o -> payload_of o = Some p ->
   let r := anneal N script T0 a in
-  count is_try r = k /\
-  count is_cool r = match o with PanicInTry _ => pred k | _ => k end /\
+  count is_try r = match o with PanicInStartObserver _ _ => pred k | _ => k end /\
+  count is_cool r = match o with PanicInTry _ | PanicInStartObserver _ _ => pred k | _ => k end /\
   count is_teardown r = 1 /\ count is_finish r = 0 /\
-  final_iteration r = k /\ final_temperature r = temp_after a T0 (cooled_after k o).
+  final_iteration r = k /\ final_temperature r = temp_after a T0 (cooled_after k o) /\
+  cut r = observer_of o.
 Proof. exact counts_fault. Qed.
 
-(* what the deferred handlePanicRecovery does with the panic *)
-Theorem C07_recovery_outcome : forall tr c t k p,
-  result (recover_handler tr c t (Panicking k p)) =
-  match p with PayloadError => Repanicked k true | PayloadOther => Repanicked k false | PayloadNil => Swallowed k end.
+(* FULL: the panic of an iteration is re-raised, for EVERY payload.  [Repanicked k p]: p = PayloadError: errors.Wrap of the
+   error; PayloadOther: the very value; PayloadNil: errors.Wrap of errors.New("panic called with a nil argument")
+   (before the `completed` flag, panic(nil) was swallowed: finding C07-panic-nil, fixed) *)
+Theorem C07_panic_reraised : forall N script T0 a k o p,
+  1 <= k <= N -> (forall j, 1 <= j < k -> script j = StepOk) ->
+  script k = o -> payload_of o = Some p ->
+  result (anneal N script T0 a) = Repanicked k p.
+Proof. exact panic_reraised. Qed.
+
+(* what the deferred handlePanicRecovery does with a panic when the run did not complete *)
+Theorem C07_recovery_outcome : forall cu tr c t k p,
+  result (recover_handler false cu tr c t (Panicking k p)) = Repanicked k p.
 Proof. exact recover_result. Qed.
 
-(* FULL statement "the panic is re-raised" is false of the faithful model: panic(nil) (go.mod `go 1.17`) is swallowed. *)
-Theorem C07_panic_reraised_refuted : exists N k o T0 a,
-  1 <= k <= N /\ payload_of o <> None /\
-  result (anneal N (panic_at k o) T0 a) = Swallowed k /\ count is_finish (anneal N (panic_at k o) T0 a) = 0.
-Proof. exact panic_nil_swallowed_witness. Qed.
+(* an observer that was handed an event and panicked: observers up to it saw the whole trace, the others all but that event *)
+Theorem C07_observer_fault_who_saw_what : forall (m j i : nat) (tr : list stamped), i < m ->
+  seen_by i (deliveries_cut m j tr) =
+  if i <=? j then filter (fun x => is_observer_event (fst x)) tr
+  else removelast (filter (fun x => is_observer_event (fst x)) tr).
+Proof. exact (@seen_by_cut float). Qed.
 
-(* PARTIAL form (what holds): every non-nil panic is re-raised — as it is, or wrapped when it is an error *)
-Theorem C07_panic_reraised_partial : forall N script T0 a k o p,
+(* observer j panics on the START event: nothing but TearDown follows, the panic (or TearDown's) is re-raised *)
+Theorem C07_start_observer_fault : forall j p fin td c0 N script T0 a,
+  anneal_gen SimpleAnnealer (mkFaults InitOk (Some (j, p)) fin td) c0 N script T0 a =
+    recover_handler false (Some j) [(ExplorerInit, T0); (EvStart, T0); (ExplorerTearDown, T0)] c0 T0
+      (Panicking c0 (in_flight td p)).
+Proof. exact start_observer_fault_run. Qed.
+
+(* observer j panics on the FINISH event of a fault-free run: the complete trace, TearDown, re-raised (not completed) *)
+Theorem C07_finish_observer_fault : forall j p td N script T0 a,
+  (forall i, 1 <= i <= N -> script i = StepOk) ->
+  anneal_gen SimpleAnnealer (mkFaults InitOk None (Some (j, p)) td) 0 N script T0 a =
+    recover_handler false (Some j) (full_trace N T0 a) N (temp_after a T0 N) (Panicking N (in_flight td p)).
+Proof. exact finish_observer_fault_run. Qed.
+
+(* TearDown itself panicking on top of a fault in iteration k: same trace, and TearDown's panic is the one re-raised *)
+Theorem C07_teardown_fault_replaces : forall td N script T0 a k o p,
   1 <= k <= N -> (forall j, 1 <= j < k -> script j = StepOk) ->
-  script k = o -> payload_of o = Some p -> p <> PayloadNil ->
-  result (anneal N script T0 a) = Repanicked k (match p with PayloadError => true | _ => false end).
-Proof. exact panic_reraised_nonnil. Qed.
+  script k = o -> payload_of o = Some p ->
+  result (anneal_gen SimpleAnnealer (mkFaults InitOk None None td) 0 N script T0 a) = Repanicked k (in_flight td p).
+Proof. exact panic_reraised_td. Qed.
 
-(* Initialise itself panicking: nothing was deferred yet — no TearDown, no event *)
-Theorem C07_init_fault : forall c0 N script T0 a p,
-  anneal_gen SimpleAnnealer (InitPanics p) c0 N script T0 a =
-  recover_handler [(ExplorerInit, T0)] c0 T0 (Panicking c0 p).
+Theorem C07_teardown_fault_run : forall td N script T0 a k o p,
+  1 <= k <= N -> (forall j, 1 <= j < k -> script j = StepOk) ->
+  script k = o -> payload_of o = Some p ->
+  anneal_gen SimpleAnnealer (mkFaults InitOk None None td) 0 N script T0 a =
+    recover_handler false (observer_of o)
+      ([(ExplorerInit, T0); (EvStart, T0)]
+         ++ (flat_map (iteration_block a T0) (seq 1 (pred k)) ++ partial_block a T0 k o)
+         ++ [(ExplorerTearDown, temp_after a T0 (cooled_after k o))])
+      k (temp_after a T0 (cooled_after k o)) (Panicking k (in_flight td p)).
+Proof. exact anneal_fault_run_td. Qed.
+
+(* faults after the last iteration of a fault-free run (finish observer, TearDown): the whole skeleton was sent, and ... *)
+Theorem C07_late_fault_skeleton : forall fin td N script T0 a,
+  (forall j, 1 <= j <= N -> script j = StepOk) ->
+  skeleton_events (anneal_gen SimpleAnnealer (mkFaults InitOk None fin td) 0 N script T0 a) = skeleton N.
+Proof. exact skeleton_late_fault. Qed.
+
+(* ... everything is re-raised except -- outside the property, noted -- panic(nil) raised by TearDown after a COMPLETED run,
+   which recover() cannot tell from a normal return *)
+Theorem C07_note_teardown_nil_after_completed_run : forall fin td N script T0 a,
+  (forall j, 1 <= j <= N -> script j = StepOk) ->
+  result (anneal_gen SimpleAnnealer (mkFaults InitOk None fin td) 0 N script T0 a) =
+  match fin, td with
+  | Some (_, p), _ => Repanicked N (in_flight td p)
+  | None, Some PayloadNil => Swallowed N
+  | None, Some q => Repanicked N q
+  | None, None => Finished
+  end.
+Proof. exact late_fault_result. Qed.
+
+(* and that is the ONLY way for Anneal() to return normally from a run in which something panicked *)
+Theorem C07_swallowed_only_if : forall kind fl c0 N script T0 a k,
+  result (anneal_gen kind fl c0 N script T0 a) = Swallowed k ->
+  f_teardown fl = Some PayloadNil /\ f_init fl = InitOk /\ f_start fl = None /\ f_finish fl = None.
+Proof. exact swallowed_only_if. Qed.
+
+(* Initialise itself panicking: nothing was deferred yet -- no TearDown, no event; re-raised for every payload *)
+Theorem C07_init_fault : forall fl c0 N script T0 a p, f_init fl = InitPanics p ->
+  anneal_gen SimpleAnnealer fl c0 N script T0 a =
+  recover_handler false None [(ExplorerInit, T0)] c0 T0 (Panicking c0 p).
 Proof. exact init_panic_run. Qed.
 
 (* ---- ElapsedTimeTrackingAnnealer = SimpleAnnealer + one Info line iff Anneal() returned ------------------ *)
-Theorem C07_elapsed_wrapper : forall init c0 N script T0 a,
-  let r := anneal_gen SimpleAnnealer init c0 N script T0 a in
-  let r' := anneal_gen ElapsedTimeTrackingAnnealer init c0 N script T0 a in
+Theorem C07_elapsed_wrapper : forall fl c0 N script T0 a,
+  let r := anneal_gen SimpleAnnealer fl c0 N script T0 a in
+  let r' := anneal_gen ElapsedTimeTrackingAnnealer fl c0 N script T0 a in
   result r' = result r /\ final_iteration r' = final_iteration r /\ final_temperature r' = final_temperature r /\
+  cut r' = cut r /\
   trace r' = trace r ++ match result r with
                         | Finished | Swallowed _ => [(LogInfo, final_temperature r)]
                         | _ => []
                         end.
-Proof. exact elapsed_run. Qed.
+Proof. exact elapsed_run_faults. Qed.
 
 (* the fuel of the model's loop is never exhausted (the Go loop terminates) *)
-Theorem C07_terminates : forall kind init c0 N script T0 a,
-  result (anneal_gen kind init c0 N script T0 a) <> OutOfFuel.
+Theorem C07_terminates : forall kind fl c0 N script T0 a,
+  result (anneal_gen kind fl c0 N script T0 a) <> OutOfFuel.
 Proof. exact anneal_never_out_of_fuel. Qed.
 
 (* ---- temperature ---------------------------------------------------------------------------------------- *)
@@ -159,10 +224,10 @@ Proof. exact temp_R_nonincreasing. Qed.
 (* ---- outside the quantifier (noted): Anneal() never resets currentIteration ----------------------------- *)
 Theorem C07_note_reanneal_runs_one_iteration : forall c0 N script T0 a,
   1 <= N -> N <= c0 -> script (S c0) = StepOk ->
-  anneal_gen SimpleAnnealer InitOk c0 N script T0 a =
+  anneal_gen SimpleAnnealer no_faults c0 N script T0 a =
     mkRun ([(ExplorerInit, T0); (EvStart, T0)] ++ block1 a (S c0) T0
              ++ [(EvFinish (S c0), cool a T0); (ExplorerTearDown, cool a T0)])
-          (S c0) (cool a T0) Finished.
+          None (S c0) (cool a T0) Finished.
 Proof. exact reanneal_runs_one_iteration. Qed.
 
 (* ---- non-vacuity ------------------------------------------------------------------------------------------ *)
@@ -185,8 +250,24 @@ Example C07_example_fault :
    EvStartIter 1; ExplorerTry 1; ExplorerCool 1; EvCooling 1; EvFinishIter 1;
    EvStartIter 2; ExplorerTry 2; ExplorerCool 2; EvCooling 2;
    ExplorerTearDown; LogError]
-  /\ result (anneal_elapsed 3 (panic_at 2 (PanicInCoolAfter PayloadError)) 100%float 0.5%float) = Repanicked 2 true.
+  /\ result (anneal_elapsed 3 (panic_at 2 (PanicInCoolAfter PayloadError)) 100%float 0.5%float) = Repanicked 2 PayloadError.
 Proof. vm_compute. split; reflexivity. Qed.
+
+(* panic(nil) in TryRandomChange of iteration 1: torn down, logged, re-raised as a (wrapped) new error, no finish event *)
+Example C07_example_nil_payload :
+  map fst (trace (anneal 2 (panic_at 1 (PanicInTry PayloadNil)) 100%float 0.5%float)) =
+  [ExplorerInit; EvStart; EvStartIter 1; ExplorerTry 1; ExplorerTearDown; LogError]
+  /\ result (anneal 2 (panic_at 1 (PanicInTry PayloadNil)) 100%float 0.5%float) = Repanicked 1 PayloadNil.
+Proof. vm_compute. split; reflexivity. Qed.
+
+(* observer 1 of 3 panics on FinishedIteration 1; TearDown panics too and its error is the one that comes out *)
+Example C07_example_observer_and_teardown_fault :
+  let r := anneal_gen SimpleAnnealer (mkFaults InitOk None None (Some PayloadError)) 0 2
+             (panic_at 1 (PanicInFinishObserver 1 PayloadOther)) 8%float 0.5%float in
+  result r = Repanicked 1 PayloadError /\ cut r = Some 1 /\
+  map fst (seen_by 1 (run_deliveries 3 r)) = [EvStart; EvStartIter 1; EvCooling 1; EvFinishIter 1] /\
+  map fst (seen_by 2 (run_deliveries 3 r)) = [EvStart; EvStartIter 1; EvCooling 1].
+Proof. vm_compute. repeat split; reflexivity. Qed.
 
 (* the hypotheses of the cooling theorems are met by the default-like configuration, and the float result differs
    from the ideal one only by rounding: 1000 * 0.95 * 0.95 *)
@@ -210,9 +291,16 @@ Print Assumptions C07_initialised_before_start.
 Print Assumptions C07_run_with_fault.
 Print Assumptions C07_fault_skeleton.
 Print Assumptions C07_fault_teardown_no_finish.
+Print Assumptions C07_panic_reraised.
 Print Assumptions C07_recovery_outcome.
-Print Assumptions C07_panic_reraised_refuted.
-Print Assumptions C07_panic_reraised_partial.
+Print Assumptions C07_observer_fault_who_saw_what.
+Print Assumptions C07_start_observer_fault.
+Print Assumptions C07_finish_observer_fault.
+Print Assumptions C07_teardown_fault_replaces.
+Print Assumptions C07_teardown_fault_run.
+Print Assumptions C07_late_fault_skeleton.
+Print Assumptions C07_note_teardown_nil_after_completed_run.
+Print Assumptions C07_swallowed_only_if.
 Print Assumptions C07_init_fault.
 Print Assumptions C07_elapsed_wrapper.
 Print Assumptions C07_terminates.
